@@ -32,15 +32,28 @@ import numpy as np
 from pmc.engine import core
 
 ID = 'C11'
-RULE = ('census = for every class of the statement a base instance plus every named attribute '
-        'variant (quick: one variant at a time; thorough: also every pair of variants that touch '
-        'different attributes); from every instance all sequences over {json, dict} up to the depth '
-        'are executed on the real classes; an instance is non-trivial when it differs from the base '
-        'instance of its class or nests another pMuTT object, and a history when it has >= 1 operation')
-ASSUMPTIONS = ['attribute values are taken from the finite menus in SPEC (stated in bounds)',
-               'a container may change its Python type across the round trip (ndarray -> list) as long '
-               'as its contents, the getters and the re-encoded text are unchanged',
+RULE = ('census = for every class of the statement a base instance, every named attribute variant '
+        '(quick: one variant at a time; thorough: also every pair of variants that touch different '
+        'attributes), every object made by a factory classmethod / preset, and every object edited after '
+        'construction (setattr of a variant, or a public mutator); the variants include the generic value '
+        'families: int for float, integer ndarrays, numpy scalars, full-precision floats, repeated / '
+        'descending lists, explicit empty values, notes dictionaries whose keys collide with the '
+        "encoder's own vocabulary; from every instance all sequences over {json, dict} up to the depth "
+        'are executed on the real classes (edited objects: depth 1); after the comparisons of a transition '
+        'the twin object decoded from the same dictionary is edited in place; per class all instances are '
+        'also encoded and decoded side by side in one process and as one JSON document; an instance is '
+        'non-trivial when it differs from the base instance of its class or nests another pMuTT object, '
+        'and a history when it has >= 1 operation')
+ASSUMPTIONS = ['attribute values are taken from the finite menus in SPEC / EXTRA / NOTES_MENU (stated in bounds)',
+               'a container may change its Python type across the round trip (ndarray -> list, numpy scalar -> '
+               'Python number) as long as its contents, the getters and the re-encoded text are unchanged',
                'getters are compared only where the constructed object itself can evaluate them',
+               'assignment after construction is explored only where it leaves the object in exactly the state '
+               '(all instance attributes, recursively) that the constructor produces for the same value; the other '
+               'assignments are counted under model_refused',
+               'a notes dictionary that imitates a *registered* class string is not in the menu (in-band signalling '
+               'is how the format works); to_dict() output sharing containers with the object it describes is not '
+               'examined (the statement constrains decoding)',
                'omkm phase objects, omkm.BEP, ExtendedLSR, Zacros and Network are outside the class '
                'list of the statement and are not in the census']
 EXPLANATION = ('explicit-state exploration of the implementation; every history is an execution of the '
@@ -49,11 +62,12 @@ EXPLANATION = ('explicit-state exploration of the implementation; every history 
 LEVEL_TEXT = ('Exhaustive exploration of encode/decode histories (json.dumps with pmuttEncoder + json.loads with '
               'json_to_pmutt, and to_dict/from_dict) of the real classes from every instance of a census that '
               'covers all 29 classes of the statement with one-at-a-time (quick) or pairwise (thorough) attribute '
-              'variants and nested species/reactions/references; class, constructor attributes, every evaluable '
-              'getter, re-encoding fixpoint, dictionary immutability and repeatability checked on every transition; '
-              'complete up to the stated depth.')
-LEVEL_NOTE = ('Attribute values come from finite menus; depth 3 (quick) / 5 (thorough); getters on a 2-point (quick) '
-              'or 5-point (thorough) (T,P) lattice with scalar arguments only.')
+              'variants, factory-made and edited-after-construction objects and nested species/reactions/references; '
+              'class, constructor attributes, every evaluable getter, re-encoding fixpoint, dictionary immutability, '
+              'repeatability, purity of encoding and independence of the decoded objects (in-place edits) checked on '
+              'every transition; all instances of a class side by side in one process; complete up to the stated depth.')
+LEVEL_NOTE = ('Attribute values come from finite menus; depth 3 (quick) / 5 (thorough), 1 for edited objects; getters on '
+              'a 2-point (quick) or 5-point (thorough) (T,P) lattice with scalar arguments only.')
 TECHNIQUE = 'explicit-state exploration of operation histories on the implementation, constructed-object oracle'
 
 OPS = ['json', 'dict']
@@ -394,7 +408,8 @@ EXTRA = {
                                   'np_ints': dict(a=NP([10000, -50, 3, 0, 0, 0, 0, -1000, 5])),
                                   'int_list': dict(a=[10000, -50, 3, 0, 0, 0, 0, -1000, 5]),
                                   'np_scalars': dict(T_low=NPF(200.0), T_high=NPI(1000))}),
-    'Nasa9': dict(variants={'desc_seg': dict(nasas=[R('SingleNasa9+high'), R('SingleNasa9')]),
+    'Nasa9': dict(variants={'precise': dict(nasas=[R('SingleNasa9+precise')]),
+                            'desc_seg': dict(nasas=[R('SingleNasa9+high'), R('SingleNasa9')]),
                             'seg_lists': dict(nasas=[R('SingleNasa9+a_list')]),
                             'elements_np': dict(elements={'H': NPI(2)})},
                   factories={'from_model': ('from_model', dict(_H2_KW, model=R('StatMech+as_H2'), T_low=300.0,
@@ -461,6 +476,13 @@ for _k, _sp in SPEC.items():
     if 'notes_dict' in _sp['variants']:
         for _n, _v in NOTES_MENU.items():
             _sp['variants'][_n] = dict(notes=_v)
+        _sp['variants']['notes_empty_str'] = dict(notes='')          # explicit "empty" values are not "absent"
+    if 'name' in _sp['base']:
+        _sp['variants']['name_empty'] = dict(name='')
+    if 'elements' in _sp['base']:
+        _sp['variants']['elements_empty'] = dict(elements={})
+    if 'smiles' in _sp['variants']:
+        _sp['variants']['smiles_empty'] = dict(smiles='')
     _e = EXTRA.get(_k, {})
     for _n, _v in _e.get('variants', {}).items():
         assert _n not in _sp['variants'], (_k, _n)
@@ -487,7 +509,7 @@ PLANNED_TAGS = (['roundtrip:%s' % k for k in CLASSES] + ['getters:%s' % k for k 
                    'value:notes-reserved-key', 'value:notes-nested', 'value:repeated-items',
                    'value:full-precision-float', 'made-by:factory', 'made-by:setattr', 'made-by:mutator',
                    'edited-then-encoded', 'poke:list', 'poke:dict', 'poke:ndarray', 'side-by-side',
-                   'side-by-side:several-objects']
+                   'side-by-side:several-objects', 'one-document:list-in-plain-dict']
                 + sorted(NEST_TAGS))
 
 # minimum number of distinct getters that must have been *evaluated and compared* on some instance
@@ -501,9 +523,14 @@ MIN_GETTERS = {'BEP': 10, 'CatSite': 0, 'ChemkinReaction': 51, 'ConstantMode': 1
 
 
 def bounds(tier):
-    return dict(classes=len(CLASSES), instances=len(instances(tier)), operations=OPS, depth=DEPTH[tier],
+    inst = instances(tier)
+    return dict(classes=len(CLASSES), instances=len(inst), operations=OPS, depth=DEPTH[tier],
+                depth_edited_objects=1, edited_instances=sum('~' in r for r in inst),
+                factory_instances=sum('@' in r for r in inst), side_by_side_cases=3 * len(CLASSES),
                 variant_level='single' if tier == 'quick' else 'single + disjoint pairs',
                 variants_per_class={k: len(SPEC[k]['variants']) for k in CLASSES},
+                factories_per_class={k: len(SPEC[k]['factories']) for k in CLASSES if SPEC[k]['factories']},
+                notes_menu=sorted(NOTES_MENU),
                 lattice_T_P=LATTICE[tier], histories_per_instance=sum(len(OPS) ** d for d in range(1, DEPTH[tier] + 1)))
 
 
@@ -630,7 +657,10 @@ def build(recipe):
         if edit is not None:
             es = copy.deepcopy(_edit_spec(recipe))
             if edit.startswith('!'):
-                getattr(obj, sp['mutators'][edit[1:]][0])(**{a: _value(v) for a, v in es.items()})
+                try:
+                    getattr(obj, sp['mutators'][edit[1:]][0])(**{a: _value(v) for a, v in es.items()})
+                except (IndexError, ValueError) as e:       # e.g. pop(1) on a one-interval coverage effect
+                    raise NotApplicable('%s.%s refused by the object: %s' % (clsname, edit[1:], e))
             else:
                 for a in es:
                     if not hasattr(obj, a):
@@ -935,9 +965,11 @@ def _cls_of(node):
     to_dict dictionary), else None."""
     if not isinstance(node, dict):
         return None
-    c = node.get('__class__', node.get('class'))
+    c = node.get('__class__')
     if c is None:
-        return None
+        c = node.get('class')
+        if not (isinstance(c, str) and c.startswith("<class '")):
+            return None                 # e.g. a notes dictionary with an entry called 'class'
     c = str(c)
     return short(c) if "'" in c else c.split('.')[-1]
 
@@ -1192,9 +1224,10 @@ def apply_op(obj, op, ctx, case):
         plain = json.loads(text)
         check_untouched(ctx, CL_ENC_PURE, src_before, observe(obj, full=True), sig, case, 0)
         deferred = hook.deferred
+        src_mid = observe(obj, full=True)
 
         def edit_src(n=len(deferred)):
-            check_untouched(ctx, CL_EDIT_SRC, src_before, observe(obj, full=True), sig, case, n)
+            check_untouched(ctx, CL_EDIT_SRC, src_mid, observe(obj, full=True), sig, case, n)
         deferred.append(edit_src)
     elif op == 'dict':
         try:
@@ -1236,10 +1269,11 @@ def apply_op(obj, op, ctx, case):
             if is_pmutt(again) and again is not new:
                 def edit():
                     full1 = canon(new, full=True)
+                    src_mid = observe(obj, full=True)
                     n = poke(containers(again), ctx)
                     check_untouched(ctx, CL_EDIT_DICT, before, canon(d), sig, case, n)
                     check_untouched(ctx, CL_EDIT_TWIN, full1, canon(new, full=True), sig, case, n)
-                    check_untouched(ctx, CL_EDIT_SRC, src_before, observe(obj, full=True), sig, case, n)
+                    check_untouched(ctx, CL_EDIT_SRC, src_mid, observe(obj, full=True), sig, case, n)
                 deferred.append(edit)
         plain = before
     else:
@@ -1307,7 +1341,7 @@ def compare(orig, new, plan, ctx, op, case, plain):
                 ctx.outcome('returns the same value from every getter', core.dumps(sk_o))
     # (4) re-encoding fixpoint
     try:
-        if op == 'json':
+        if op in ('json', 'jsondoc'):
             plain2 = json.loads(_encode(new))
         else:
             plain2 = canon(new.to_dict())
@@ -1417,28 +1451,57 @@ def side_by_side(case, ctx):
                 raise
     ctx.trace()
     enc = []
-    for r, o, _ in objs:
-        sig = dict(cls=type(o).__name__, op=op)
+    dec = [None] * len(objs)
+    if op == 'jsondoc':
+        # the way collections are stored: ONE document, a plain dictionary (no pMuTT class; one nested plain
+        # dictionary deliberately has a 'class' entry of its own) holding the list of objects
+        sig = dict(cls=k, op=op)
+        doc = {'objects': [o for _, o, _ in objs], 'meta': {'class': 'census', 'count': len(objs), 'tags': []}}
         try:
-            enc.append(_encode(o) if op == 'json' else o.to_dict())
+            text = _encode(doc)
         except Exception as e:
             ctx.fail('encodes without error', _exc_sig(sig, e), case, '%s: %s' % (type(e).__name__, str(e)[:200]),
-                     'encoded form')
-            enc.append(None)
-    dec = [None] * len(objs)
-    for i in reversed(range(len(objs))):
-        if enc[i] is None:
-            continue
-        sig = dict(cls=type(objs[i][1]).__name__, op=op)
+                     'JSON text')
+            return
         ctx.trans()
         try:
-            if op == 'json':
-                dec[i] = json.loads(enc[i], object_hook=json_to_pmutt)
-            else:
-                dec[i] = type(objs[i][1]).from_dict(enc[i])
+            back = json.loads(text, object_hook=json_to_pmutt)
         except Exception as e:
             ctx.fail('decodes without error', _exc_sig(sig, e), case, '%s: %s' % (type(e).__name__, str(e)[:200]),
                      'object')
+            return
+        plain_doc = json.loads(text)
+        ctx.equal('plain dictionaries pass through the hook unchanged', canon(back.get('meta')) if
+                  isinstance(back, dict) else '<%s>' % type(back).__name__, canon(plain_doc['meta']), sig, case)
+        if not (isinstance(back, dict) and isinstance(back.get('objects'), list)
+                and len(back['objects']) == len(objs)):
+            ctx.fail('decodes to the same class', dict(sig, got=type(back).__name__), case,
+                     _brief(canon(back)), 'dictionary with the list of %d objects' % len(objs))
+            return
+        enc = [json.dumps(x) for x in plain_doc['objects']]
+        dec = list(back['objects'])
+    else:
+        for r, o, _ in objs:
+            sig = dict(cls=type(o).__name__, op=op)
+            try:
+                enc.append(_encode(o) if op == 'json' else o.to_dict())
+            except Exception as e:
+                ctx.fail('encodes without error', _exc_sig(sig, e), case,
+                         '%s: %s' % (type(e).__name__, str(e)[:200]), 'encoded form')
+                enc.append(None)
+        for i in reversed(range(len(objs))):
+            if enc[i] is None:
+                continue
+            sig = dict(cls=type(objs[i][1]).__name__, op=op)
+            ctx.trans()
+            try:
+                if op == 'json':
+                    dec[i] = json.loads(enc[i], object_hook=json_to_pmutt)
+                else:
+                    dec[i] = type(objs[i][1]).from_dict(enc[i])
+            except Exception as e:
+                ctx.fail('decodes without error', _exc_sig(sig, e), case,
+                         '%s: %s' % (type(e).__name__, str(e)[:200]), 'object')
     for i, (r, o, plan) in enumerate(objs):
         if dec[i] is None:
             continue
@@ -1447,10 +1510,10 @@ def side_by_side(case, ctx):
                        dict(cls=type(o).__name__, op=op, got=type(dec[i]).__name__), case)
         if not ok:
             continue
-        plain = json.loads(enc[i]) if op == 'json' else canon(enc[i])
+        plain = json.loads(enc[i]) if op in ('json', 'jsondoc') else canon(enc[i])
         if compare(o, dec[i], plan, ctx, op, case, plain) and len(objs) > 1:
             ctx.nontrivial(('side-by-side', r, op))
-    ctx.tag('side-by-side')
+    ctx.tag('side-by-side' if op != 'jsondoc' else 'one-document:list-in-plain-dict')
     if len(objs) > 1:
         ctx.tag('side-by-side:several-objects')
 
@@ -1464,7 +1527,7 @@ def check_case(case, ctx):
 
 def run_shard(shard, ctx):
     if shard.get('kind') == 'interleave':
-        for op in OPS:
+        for op in OPS + ['jsondoc']:
             case = dict(kind='interleave', cls=shard['cls'], tier=shard['tier'], op=op)
             ctx.run_case(side_by_side, case, dict(cls=shard['cls'], op=op))
         return
